@@ -242,11 +242,15 @@ prop("C01", engine="e1", rule=(
     "non-trivial = some called tuple has >= 2 applicable definitions; "
     "distinct = canonical hash of (registry, configuration)"),
     quick=dict(also=[dict(engine="e2", workers=4, cases=600)], cases=6000, size=60), thorough=dict(fuzz=dict(engine="e1f", workers=4, runs=300000), also=[dict(engine="e2", workers=4, cases=20000)], cases=200000, size=100))
-prop("C03", engine="e1", rule=(
+prop("C03", engine="e1", program="c03", rule=(
     "random registries; after update the next pointer written for every "
     "definition is compared with the model's select() over strictly more "
     "general definitions; non-trivial = some definition has >= 2 strictly "
-    "more general definitions"),
+    "more general definitions. Third generator (programs): a class DAG, a method declared and "
+    "defined with the macros (plain or in a method container), every "
+    "definition records itself and calls next; the chains D > next(D) > ... "
+    "and the final error of every tuple are compared with the model, before "
+    "and after a second update"),
     quick=dict(also=[dict(engine="e2", workers=3, cases=600)], cases=10000, size=60), thorough=dict(also=[dict(engine="e2", workers=3, cases=20000)], cases=300000, size=100))
 prop("C04", engine="e1", rule=(
     "lattice-biased random registries, canonical and arbitrary legal "
@@ -604,7 +608,8 @@ def replay_file(exe, path, fork=True):
 
 
 PROGRAM_ENGINES = {"c11": "proggen.c11", "c20": "proggen.c20",
-                   "c13": "proggen.c13", "c07": "proggen.c07"}
+                   "c13": "proggen.c13", "c07": "proggen.c07",
+                   "c03": "proggen.c03"}
 
 
 def program_module(name):
@@ -1053,7 +1058,7 @@ def write_manifest():
              "-fsanitize=thread: concurrent callers and a concurrent updater "
              "of another policy"},
             {"name": "e3", "path": "proggen",
-             "serves_properties": ["C07", "C11", "C12", "C13", "C20"],
+             "serves_properties": ["C03", "C07", "C11", "C12", "C13", "C20"],
              "kind_free_text": "seeded generators of C++ programs, compiled "
              "against /repo/include and run; the oracle is inside the "
              "generated program"},
